@@ -215,6 +215,9 @@ def round (simps : Nat → Oracle σ μ) (np : σ → Nat) (maxParam : Nat) (dfl
              rounds := st.rounds ++ [{ expandFun := expandFun, checkPerm := checkPerm, allInv := r.2 }] }
   else none
 
+/-- `all_sym = [all_sym[u] for u in uniq_fun]` does not raise KeyError (the condition of `round`, named for `roundRanks`) -/
+def keysKnown (uniq0 symKeys : List σ) : Bool := uniq0.all (fun u => decide (u ∈ symKeys))
+
 /-- `while old_nuniq != new_nuniq` with at most `fuel` iterations; the flag says whether the loop condition is false at
 the end (termination is not claimed: the flag is part of the output). -/
 def loop (simps : Nat → Oracle σ μ) (np : σ → Nat) (maxParam : Nat) (dflt : σ) (expandFun : Bool) :
@@ -378,7 +381,7 @@ def roundRanks (d : MakeChangesDesc) (P : Nat) (simps : Nat → Oracle String μ
     (dflt : String) (expandFun : Bool) (st : St String μ) : Option (St String μ) :=
   let allInv0 : List (OChain μ) := List.replicate st.allFun.length none
   let uniq0 := uniqueKeys st.allFun
-  if uniq0.all (fun u => decide (u ∈ st.symKeys)) then
+  if keysKnown uniq0 st.symKeys then
     let uniqInv := uniq0.map (fun u => allInv0.getD (st.allFun.findIdx (· = u)) none)
     let np0 := uniq0.map np
     let checkPerm := !expandFun && st.count != 0
